@@ -426,9 +426,17 @@ def r_all_names_resolved(ck: Checker) -> None:
                 continue
             n += 1
             what = "PatternDefInterpreter.tree resolves every class name of the alternation (no early exit from the resolving loop)"
-            # (a `break` before anything was resolved — the lone `*` of the grammar — is not an early exit from resolving)
-            first_resolve = min((c.lineno for c in ast.walk(lp) if isinstance(c, ast.Call) and (dotted(c.func) or "").split(".")[-1] in ("check_and_get_ast_node_type", "_resolve_class_spec")), default=10**9)
-            early = [x for b in lp.body for x in ast.walk(b) if isinstance(x, ast.Break) and x.lineno > first_resolve]
+            # (a `break` on a path that resolved nothing — the lone `*` of the grammar — is not an early exit from resolving): path by path
+            from ..dtree import decision_tree
+            early = []
+            for lf in decision_tree(lp.body, max_atoms=8):
+                if lf.outcome != "break":
+                    continue
+                resolved_here = any(isinstance(c, ast.Call) and (dotted(c.func) or "").split(".")[-1] in ("check_and_get_ast_node_type", "_resolve_class_spec")
+                                    for st_ in lf.stmts for c in ast.walk(st_))
+                resolved_here = resolved_here or any("check_and_get_ast_node_type(" in k or "_resolve_class_spec(" in k for k in lf.assign)
+                if resolved_here:
+                    early.append(lf.stmts[-1] if lf.stmts else lp)
             if early:
                 ck.violation("R-GRAM-EXH", f, early[0], what, positive=True,
                              construct="PatternDefInterpreter.tree: `break` in the loop over the class names — the names after it are never checked, so `(ASTNode | NoSuchClass)` compiles")
